@@ -409,15 +409,15 @@ func (g *gen) pathsTo(roots []Expr, want func(*Type) bool) []pathCand {
 	for _, r := range roots {
 		walkPaths(r, r.Type(), want, nil, 4, &out)
 	}
-	// Known finding (tag const.index.composite): a constant-index / member
-	// access into a `const` composite whose element is itself composite is
-	// mistyped by the lowerer; keep const-rooted paths whose first step
-	// already yields a scalar.
+	// Known finding (tag const.index.composite): constant-folding of an index /
+	// member access into a `const` composite that has composite components
+	// picks the wrong component or mistypes the result; keep element access
+	// only into flat constants.
 	decided, off := false, false
 	keep := out[:0]
 	for _, c := range out {
 		if len(c.steps) >= 1 {
-			if v, ok := c.root.(*VarRef); ok && v.V.Kind == VConst && !firstStepScalar(v.V.T, c.steps[0]) {
+			if v, ok := c.root.(*VarRef); ok && v.V.Kind == VConst && !flatConstType(v.V.T) {
 				if !decided {
 					decided, off = true, g.f.off("const.index.composite")
 				}
@@ -431,13 +431,20 @@ func (g *gen) pathsTo(roots []Expr, want func(*Type) bool) []pathCand {
 	return keep
 }
 
-func firstStepScalar(t *Type, s pathStep) bool {
-	switch s.kind {
-	case 0:
-		return t.St.Members[s.idx].T.K == TScalar
-	case 1:
+// flatConstType: vector, array of scalars, or struct of scalars — the
+// composites whose constant-folded element access naga gets right.
+func flatConstType(t *Type) bool {
+	switch t.K {
+	case TVec:
+		return true
+	case TArray:
 		return t.Elem.K == TScalar
-	case 2:
+	case TStruct:
+		for _, m := range t.St.Members {
+			if m.T.K != TScalar {
+				return false
+			}
+		}
 		return true
 	}
 	return false
